@@ -282,6 +282,11 @@ class Folder:
             if not CMPOPS[type(op)](l, r): return False
             l = r
         return True
+    def e_Lambda(self, e, env):
+        fn = ast.FunctionDef(name='<lambda>', args=e.args, body=[ast.Return(value=e.body)], decorator_list=[], returns=None, type_comment=None, type_params=[])
+        ast.copy_location(fn, e)
+        ast.fix_missing_locations(fn)
+        return FuncConst(fn, env)
     def e_IfExp(self, e, env): return self.expr(e.body if self.expr(e.test, env) else e.orelse, env)
     def e_Subscript(self, e, env): return self.expr(e.value, env)[self.expr(e.slice, env)]
     def e_Slice(self, e, env):
